@@ -42,6 +42,27 @@ def parseKind (s : String) (allowed : String) : Option Char :=
     else if (k == 'T' || k == 'R') && rest.length == 2 then some k
     else none
 
+/-- argument token: a payload or a wrong-typed object (`!I !S !F !T !N`, same rule as `parse_arg` in the harness) -/
+def parseArg (s : String) : Option Arg :=
+  match s.toList with
+  | ['!', 'I'] => some (.wrong .int)
+  | ['!', 'S'] => some (.wrong .str)
+  | ['!', 'F'] => some (.wrong .float)
+  | ['!', 'T'] => some (.wrong .type)
+  | ['!', 'N'] => some (.wrong .null)
+  | '!' :: _ => none
+  | _ => (parseNat s).map .pay
+
+def argPairs : List Arg → List (Arg × Arg)
+  | a :: b :: r => (a, b) :: argPairs r
+  | _ => []
+
+/-- one-argument calls: the plain operation for a payload, the typed call for a wrong-typed object -/
+def argOp (a : Arg) (plain : Nat → Op) (typed : Wrong → Op) : Op :=
+  match a with
+  | .pay p => plain p
+  | .wrong w => typed w
+
 def parseOp (ws : List String) : Option Op :=
   match ws with
   | ["new", c, k] => do
@@ -54,28 +75,38 @@ def parseOp (ws : List String) : Option Op :=
   | "newv" :: c :: k :: ps => do
     let c ← parseNat c
     let k ← match parseKind k "AL" with | some 'A' => some SeqKind.array | some 'L' => some .list | _ => none
-    let ps ← parseNats ps
-    pure (.newSeq c k ps)
+    let args ← ps.mapM parseArg
+    pure (if allGood args then .newSeq c k (goodPrefix args).1 else .typed c (.newSeq k args))
   | "newm" :: c :: k :: ps => do
     let c ← parseNat c
     let k ← match parseKind k "TR" with | some 'T' => some MapKind.table | some 'R' => some .tree | _ => none
-    let ps ← parseNats ps
-    if ps.length % 2 != 0 then none else pure (.newMap c k (pairs ps))
+    let args ← ps.mapM parseArg
+    if args.length % 2 != 0 then none
+    else pure (if allGood args then .newMap c k (pairs (goodPrefix args).1) else .typed c (.newMap k (argPairs args)))
   | ["box", c, p] => do pure (.box (← parseNat c) (← parseNat p))
-  | ["push", c, p] => do pure (.push (← parseNat c) (← parseNat p))
-  | ["append", c, p] => do pure (.push (← parseNat c) (← parseNat p))
-  | ["pushat", c, i, p] => do pure (.pushAt (← parseNat c) (← parseInt i true) (← parseNat p))
+  | ["push", c, p] => do let c ← parseNat c; pure (argOp (← parseArg p) (.push c) (fun w => .typed c (.push w)))
+  | ["append", c, p] => do let c ← parseNat c; pure (argOp (← parseArg p) (.push c) (fun w => .typed c (.push w)))
+  | ["pushat", c, i, p] => do
+    let c ← parseNat c; let i ← parseInt i true
+    pure (argOp (← parseArg p) (.pushAt c i) (fun w => .typed c (.pushAt i w)))
+  | "concatv" :: c :: args => do pure (.typed (← parseNat c) (.concat (← args.mapM parseArg)))
   | ["pop", c] => do pure (.pop (← parseNat c))
   | ["popat", c, i] => do pure (.popAt (← parseNat c) (← parseInt i true))
-  | ["set", c, i, p] => do pure (.set (← parseNat c) (← parseInt i true) (← parseNat p))
-  | ["rem", c, p] => do pure (.rem (← parseNat c) (← parseNat p))
+  | ["set", c, i, p] => do
+    let c ← parseNat c; let i ← parseInt i true
+    pure (argOp (← parseArg p) (.set c i) (fun w => .typed c (.set i w)))
+  | ["rem", c, p] => do let c ← parseNat c; pure (argOp (← parseArg p) (.rem c) (fun w => .typed c (.rem w)))
   | ["resize", c, n] => do pure (.resize (← parseNat c) (← parseNat n))
   | ["sort", c] => do pure (.sort (← parseNat c))
   | ["concat", c, d] => do pure (.concat (← parseNat c) (← parseNat d))
   | ["assign", c, d] => do pure (.assign (← parseNat c) (← parseNat d))
   | ["copy", c, d] => do pure (.copy (← parseNat c) (← parseNat d))
-  | ["mset", c, k, v] => do pure (.mset (← parseNat c) (← parseNat k) (← parseNat v))
-  | ["mrem", c, k] => do pure (.mrem (← parseNat c) (← parseNat k))
+  | ["mset", c, k, v] => do
+    let c ← parseNat c
+    match (← parseArg k), (← parseArg v) with
+    | .pay k, .pay v => pure (.mset c k v)
+    | k, v => pure (.typed c (.mset k v))
+  | ["mrem", c, k] => do let c ← parseNat c; pure (argOp (← parseArg k) (.mrem c) (fun w => .typed c (.mrem w)))
   | ["del", c] => do pure (.del (← parseNat c))
   | ["bassign", c, d] => do pure (.bassign (← parseNat c) (← parseNat d))
   | ["bref", c, p] => do pure (.bref (← parseNat c) (← parseNat p))
@@ -183,17 +214,25 @@ def ofTab (r : Except Cello.Table.Fail (Res Cello.Own.Conc.CTab)) : Option Sh :=
 def ofTree (r : Option (Res Cello.Own.Conc.CTree)) : Option Sh := r.map (fun r => .tree r.val)
 
 open Cello.Own.Conc in
+def shNewMap (next : Nat) (sh : Shadow) (c : Nat) (k : MapKind) (kvs : List (Nat × Nat)) : Option Shadow :=
+  match k with
+  | .table => (ofTab (tableNewC tcfg probeHash next kvs)).map (shStore sh c)
+  | .tree => (ofTree (treeFillC next treeEmpty kvs)).map (shStore sh c)
+
+open Cello.Own.Conc in
+def shMset (next : Nat) (sh : Shadow) (c k v : Nat) : Option Shadow :=
+  match shLookup sh c with
+  | some (.tab t) => (ofTab (tableSetC tcfg probeHash next t k v)).map (shStore sh c)
+  | some (.tree m) => (ofTree (treeSetC next m k v)).map (shStore sh c)
+  | none => some sh
+
+open Cello.Own.Conc in
 /-- one executed (not `bad`) operation on the shadow; `none` = the structural model failed (ub / diverge / NULL) -/
 def shStep (next : Nat) (sh : Shadow) : Op → Option Shadow
   | .new c .tbl => some (shStore sh c (.tab (Cello.Table.new tcfg)))
   | .new c .tre => some (shStore sh c (.tree treeEmpty))
-  | .newMap c .table kvs => (ofTab (tableNewC tcfg probeHash next kvs)).map (shStore sh c)
-  | .newMap c .tree kvs => (ofTree (treeFillC next treeEmpty kvs)).map (shStore sh c)
-  | .mset c k v =>
-    match shLookup sh c with
-    | some (.tab t) => (ofTab (tableSetC tcfg probeHash next t k v)).map (shStore sh c)
-    | some (.tree m) => (ofTree (treeSetC next m k v)).map (shStore sh c)
-    | none => some sh
+  | .newMap c k kvs => shNewMap next sh c k kvs
+  | .mset c k v => shMset next sh c k v
   | .mrem c k =>
     match shLookup sh c with
     | some (.tab t) => (ofTab (tableRemC tcfg probeHash t k)).map (shStore sh c)
@@ -216,6 +255,14 @@ def shStep (next : Nat) (sh : Shadow) : Op → Option Shadow
     | some (.tree m) => (ofTree (treeFillC next treeEmpty (shPays (.tree m)))).map (shStore sh c)
     | none => some sh
   | .del c => some (shErase sh c)
+  | .typed c (.mset (.pay k) (.pay v)) => shMset next sh c k v
+  | .typed c (.mset _ _) =>
+    -- refused by the `cast` at the top of Table_Set_Move / Tree_Set; Table_Set has grown a table without slots before
+    match shLookup sh c with
+    | some (.tab t) => (ofTab (tableSetRefusedC tcfg probeHash t)).map (shStore sh c)
+    | _ => some sh
+  | .typed c (.newMap k args) =>
+    if (goodPairs args).2 then shNewMap next sh c k (goodPairs args).1 else some sh
   | _ => some sh
 
 /-- first index of the sorted array holding a value ≥ x -/
